@@ -1,18 +1,10 @@
+"""Manifest inputs: one JSON file per claimed property under tools/manifest/ (keys: technique, text, note)."""
+import json
+from pathlib import Path
+
+HERE = Path(__file__).resolve().parent
 HOOK_COMMITS = []
 NOTES = ("Every check: extract tables from /repo -> lake build theorems -> audit axioms -> run the real code and the Lean "
          "model on the same cases -> verdict.  A broken proof/tie starts a failing-input search; see DESIGN.md §2.5.")
 NOT_APPLICABLE = {}
-CLAIMED = {
-    "C19": {
-        "technique": "Lean 4 theorems (round-trip, fragmentation independence, auth/reply decision logic) + correspondence with real ZmqSocket/Kernel over in-memory streams",
-        "text": "Kernel-checked theorems over the byte-level model of send/send_multipart/read_bytes/recv: any frame list of any "
-                "lengths < 2^64 round-trips under every fragmentation (C19_roundtrip, C19_fragment, C19_single, C19_sequence); "
-                "requests whose signature is not the MAC are rejected with no output, valid ones get exactly one correctly "
-                "addressed reply bracketed by busy/idle, and the execution counter follows the executed cells "
-                "(C19_auth, C19_reply, C19_counter).  The model is tied to the code by extracted ZMTP constants and by running "
-                "the real socket and shell_listen on the same inputs.",
-        "note": "Trusted: Lean kernel (axioms ⊆ propext/Classical.choice/Quot.sound), tools/extract.py, harness/run_C19.py. "
-                "Assumed not proved: asyncio.StreamReader.read semantics, HMAC is a MAC (uninterpreted `sign`), json, the "
-                "interpreter's result for a cell is a parameter.",
-    },
-}
+CLAIMED = {p.stem: json.loads(p.read_text()) for p in sorted((HERE / "manifest").glob("C*.json"))}
